@@ -106,7 +106,9 @@ Fixpoint del (t : str) (l : list tagv) : list tagv :=
 
 Inductive exn :=
 | XValue | XTagNotFound | XAssertion | XConn | XDupSeq | XEncoding | XAttribute | XOverflow
-| XFIXMessage | XDupTag | XKey.
+| XFIXMessage | XDupTag | XKey
+| XOverflowIns.   (* OverflowError of the INSERT in persist_msg; CPython's sqlite3 reports a stale IntegrityError
+                     (-> DuplicateSeqNoError) instead when the previous execution of that cached statement failed *)
 
 (* msg[tag] *)
 Definition get_tag (t : str) (m : msg) : str + exn :=
@@ -231,7 +233,7 @@ Fixpoint lookup (k : Z) (rows : list (Z * msg)) : option msg :=
    counter becomes seq.  A number outside SQLite's INTEGER range raises OverflowError. *)
 Definition persist_out (seq : Z) (m : msg) : M unit := fun w =>
   let j := jr w in
-  if negb (in_i64 seq) then raise XOverflow w
+  if negb (in_i64 seq) then raise XOverflowIns w
   else if has_key seq (j_out j) then raise XDupSeq w
   else mkR (inl tt) (set_jr (mkJ seq (j_sin j) (j_out j ++ [(seq, m)]) (j_in j)) w) [].
 
@@ -244,7 +246,7 @@ Definition persist_in (m : msg) : M unit := fun w =>
       match py_int_bytes v with
       | None => raise XFIXMessage w
       | Some seq =>
-          if negb (in_i64 seq) then raise XOverflow w
+          if negb (in_i64 seq) then raise XOverflowIns w
           else if existsb (Z.eqb seq) (j_in j) then raise XDupSeq w
           else mkR (inl tt) (set_jr (mkJ (j_sout j) seq (j_out j) (j_in j ++ [seq])) w) []
       end
